@@ -1833,6 +1833,22 @@ func (s *Sym) hashSumX(v *ssa.Call, core bool) *Term {
 		alg = hashAlgName(ctor.Name)
 	}
 	calls, side, ok := orderedCallsOn(h, v)
+	var loopPart *Term
+	if ok && len(side) == 1 {
+		// h.Write(p) for each p of a slice (a variadic parts... helper): the
+		// elements in order, provided every other write comes before the loop
+		if lp := s.rangeWriteAll(side[0]); lp != nil {
+			fine := true
+			for _, c := range calls {
+				if c.Common().Method != nil && c.Common().Method.Name() == "Write" && !dominates(c, side[0]) {
+					fine = false
+				}
+			}
+			if fine {
+				loopPart, side = lp, nil
+			}
+		}
+	}
 	if !ok || len(side) > 0 {
 		return T("hash", alg, T("unknown", "hash writes not ordered"))
 	}
@@ -1847,6 +1863,9 @@ func (s *Sym) hashSumX(v *ssa.Call, core bool) *Term {
 		default:
 			parts = append(parts, T("unknown", "hash method "+c.Common().Method.Name()))
 		}
+	}
+	if loopPart != nil {
+		parts = append(parts, loopPart)
 	}
 	ht := T("hash", alg, catTerms(parts...))
 	if len(parts) == 0 {
@@ -3233,4 +3252,43 @@ func (s *Sym) decidedEdge(v *ssa.Phi) ssa.Value {
 		return nil
 	}
 	return pick
+}
+
+// rangeWriteAll: ci is h.Write(P[i]) in a loop that runs i over every index
+// of the slice P (0, 1, ..., len(P)-1): the concatenation of P's elements.
+func (s *Sym) rangeWriteAll(ci ssa.CallInstruction) *Term {
+	cc := ci.Common()
+	if cc.Method == nil || cc.Method.Name() != "Write" || len(cc.Args) != 1 {
+		return nil
+	}
+	ld, ok := cc.Args[0].(*ssa.UnOp)
+	if !ok || ld.Op != token.MUL {
+		return nil
+	}
+	ia, ok := ld.X.(*ssa.IndexAddr)
+	if !ok {
+		return nil
+	}
+	l := innermostLoop(naturalLoops(s.fn), ci.Block())
+	if l == nil {
+		return nil
+	}
+	bound := s.loopCountOf(l, ia.Index)
+	if bound == nil {
+		return nil
+	}
+	bc, ok := bound.(*ssa.Call)
+	if !ok {
+		return nil
+	}
+	if bi, ok := bc.Call.Value.(*ssa.Builtin); !ok || bi.Name() != "len" || bc.Call.Args[0] != ia.X {
+		return nil
+	}
+	// nothing else in the loop touches the hash: the caller checked that this is
+	// the only call on it that does not dominate the Sum
+	pt := s.Of(ia.X)
+	if pt.Op == "list" {
+		return catTerms(pt.Args...)
+	}
+	return T("each", "", pt)
 }
